@@ -58,6 +58,30 @@ func keyIndex(ma *MapAgg, key Val) int {
 		}
 		return -1
 	}
+	if ki, isIface := key.(Iface); isIface { // interface keys: same dynamic type and same pointer / decidable value
+		for i, k := range ma.Keys {
+			o, ok := k.(Iface)
+			if !ok {
+				continue
+			}
+			if (ki.Dyn == nil) != (o.Dyn == nil) || (ki.Dyn != nil && !types.Identical(ki.Dyn, o.Dyn)) {
+				continue
+			}
+			switch x := ki.V.(type) {
+			case Ref:
+				if y, ok := o.V.(Ref); ok && x == y {
+					return i
+				}
+			case nil:
+				if o.V == nil {
+					return i
+				}
+			default:
+				unsupported("interface map key holding %T", x)
+			}
+		}
+		return -1
+	}
 	kt, ok := key.(Text)
 	if !ok {
 		unsupported("map key of kind %T", key)
